@@ -5,17 +5,22 @@
 (* VERDICT (property level, prints REJECT):                                  *)
 (*  (1) total       no event has out = "panic" (also for out-of-range        *)
 (*                  32-bit values);                                          *)
-(*  (2) injective   in the dump sorted by registration text ("s" events)     *)
-(*                  every registration is strictly greater than its          *)
+(*  (2) injective   in the dump sorted by registration text ("s" events, one *)
+(*                  per returned registration of the whole domain, in every  *)
+(*                  tier) each registration is strictly greater than its     *)
 (*                  predecessor, so no two addresses share a registration;   *)
 (*  (3) country     the nationality mark of a returned registration belongs  *)
 (*                  to the country of the first block of the address-block   *)
 (*                  table (dumped from the compiled crate, file BLOCKS)      *)
-(*                  that contains the address.                               *)
+(*                  that contains the address ("t" and "s" events).          *)
 (* CONFORMANCE to the allocation schemes (prints DEVIATION, never a verdict):*)
-(*  AddrOf(returned registration) = address, no registration where the       *)
-(*  schemes have none, aircraft_information agrees with tail() and with the  *)
-(*  block table.                                                             *)
+(*  AddrOf(returned registration) = address -- the forward rule is a left    *)
+(*  inverse of the lookup; AddrOf being a function, all pairs that conform   *)
+(*  are pairwise distinct registrations, which decides (2) a second time for *)
+(*  them; pairs that do not conform (e.g. HL720A, which the Korean scheme    *)
+(*  does not contain) rest on the sorted order alone --, no registration     *)
+(*  where the schemes have none, aircraft_information agrees with tail() and *)
+(*  with the block table.                                                    *)
 (* BROKEN is printed when the recording itself is inconsistent (a sweep that *)
 (* skips an address): a tool error.                                          *)
 EXTENDS Registration, TraceBase, SequencesExt
@@ -77,25 +82,25 @@ ASSUME SegOK == \A i \in 1..NSeg : \A d \in {-1, 0, 1} :
 
 (* ---- verdict ---- *)
 CountryOK(ev) == ev.reg # <<>> /\ MarkBelongsTo(ev.reg, TableCountry(ev.h))
-Ok(ev, prev) ==
+Ok(ev, pv) ==
   CASE ev.e = "t" ->
          /\ ev.out \in {"some", "none"}
          /\ ev.out = "some" => CountryOK(ev)
          /\ Has(ev, "ai") => ev.ai.out # "panic"
     [] ev.e = "run" -> ev.out = "none"
     [] ev.e = "oor" -> ev.out \in {"some", "none"}
-    [] ev.e = "s" -> /\ prev = <<>> \/ Less(prev, ev.reg)
+    [] ev.e = "s" -> /\ pv = <<>> \/ Less(pv, ev.reg)
                      /\ CountryOK(ev)
     [] ev.e \in {"begin", "end"} -> TRUE
     [] OTHER -> FALSE
 
 (* which clause of the property a rejected event breaks (for the report)     *)
-Why(ev, prev) ==
+Why(ev, pv) ==
   IF ev.e \notin {"t", "run", "oor", "s", "begin", "end"} THEN "malformed"
   ELSE IF ev.e \in {"t", "run", "oor"} /\ ev.out \notin {"some", "none"} THEN "total"
   ELSE IF ev.e = "t" /\ Has(ev, "ai") /\ ev.ai.out = "panic" THEN "total"
   ELSE IF ev.e = "run" THEN "malformed"
-  ELSE IF ev.e = "s" /\ ~(prev = <<>> \/ Less(prev, ev.reg)) THEN "injective"
+  ELSE IF ev.e = "s" /\ ~(pv = <<>> \/ Less(pv, ev.reg)) THEN "injective"
   ELSE "country"
 
 (* ---- conformance to the allocation schemes (not a verdict) ---- *)
@@ -114,10 +119,10 @@ Conforms(ev) ==
     [] OTHER -> TRUE
 
 (* ---- the recording is a complete sweep where it says so ---- *)
-Recorded(ev, nxt) ==
-  CASE ev.e = "t" -> nxt < 0 \/ ev.h = nxt
-    [] ev.e = "run" -> ev.lo <= ev.hi /\ (nxt < 0 \/ ev.lo = nxt)
-    [] ev.e = "end" -> nxt = ev.hi + 1
+Recorded(ev, nx) ==
+  CASE ev.e = "t" -> nx < 0 \/ ev.h = nx
+    [] ev.e = "run" -> ev.lo <= ev.hi /\ (nx < 0 \/ ev.lo = nx)
+    [] ev.e = "end" -> nx = ev.hi + 1
     [] ev.e = "begin" -> ev.lo <= ev.hi
     [] OTHER -> TRUE
 
